@@ -73,7 +73,11 @@ impl<T> InnerQueue<T> {
         match self.queue.pop() {
             Some(data) => Ok(data),
             None => match self.tx_ports.load(Ordering::Acquire) {
-                0 => Err(RecvTimeoutError::Disconnected),
+                0 => {
+                    // we got the disconnect token, pass it on to the next receiver
+                    self.sem.post();
+                    Err(RecvTimeoutError::Disconnected)
+                }
                 _n => unreachable!("mpmc recv found no data"),
             },
         }
@@ -81,16 +85,20 @@ impl<T> InnerQueue<T> {
 
     pub fn try_recv(&self) -> Result<T, TryRecvError> {
         if !self.sem.try_wait() {
-            return match self.tx_ports.load(Ordering::Acquire) {
-                0 => Err(TryRecvError::Disconnected),
-                _ => Err(TryRecvError::Empty),
-            };
+            // no permit, nothing to take right now. Disconnected is only reported
+            // by a receiver that holds the disconnect token (see below): data that
+            // other receivers have claimed may still be in the queue
+            return Err(TryRecvError::Empty);
         }
 
         match self.queue.pop() {
             Some(data) => Ok(data),
             None => match self.tx_ports.load(Ordering::Acquire) {
-                0 => Err(TryRecvError::Disconnected),
+                0 => {
+                    // we got the disconnect token, pass it on to the next receiver
+                    self.sem.post();
+                    Err(TryRecvError::Disconnected)
+                }
                 _ => unreachable!("mpmc try_recv found no data"),
             },
         }
@@ -103,11 +111,10 @@ impl<T> InnerQueue<T> {
     pub fn drop_tx(&self) {
         match self.tx_ports.fetch_sub(1, Ordering::SeqCst) {
             1 => {
-                // there is no tx port any more
-                // should tell all the waited rx to come back
-                while self.sem.get_value() == 0 {
-                    self.sem.post();
-                }
+                // there is no tx port any more: post the disconnect token.
+                // Every receiver that gets it (a permit without data) passes
+                // it on, so all the waiting rx and all the later ones come back
+                self.sem.post();
             }
             n if n > 1 => {}
             n => panic!("bad number of tx_ports left {n}"),
